@@ -38,7 +38,8 @@ RULE = ("case = tap profile (1..8 taps, delay/Ts in [0,20] (thorough 60): "
         "[1e-4,5e-2], L 1..16, seeded RandomState; Rayleigh with the global "
         "RNG seeded from the case) x wrapper and antennas (SISO, (Nr,Nt) in "
         "{1..3}^2 with Nr!=Nt forced in half of the MIMO cases) x history of "
-        "1..3 transmissions interleaved with switched_direction / path-loss "
+        "1..3 transmissions (complex128, integer, complex64 or float32 "
+        "samples) interleaved with switched_direction / path-loss "
         "changes (None, 1e-6..1, 1e-18..1e-10, exactly 0 and 1); frequency domain: fft > channel memory (12%: <=), selection "
         "None / index list or array (unsorted, optionally repeated) / slice "
         "incl. "
